@@ -19,7 +19,11 @@ The proofs avoid following the shape of the generated code (which a behaviour-pr
 changes): accumulations are normalised by `simp only` with the model's definitions and closed by `len_arith`
 (`omega` after pushing casts inwards), loops go through `foldl_add_*` whatever the loop body looks like, helper
 functions that the Go code calls are inlined by the translator (a beta-redex that `simp only` reduces), and the tag
-switch is checked tag by tag for all 256 tags.
+switch is checked tag by tag for all 256 tags.  A function of a few flags may also be a lookup in a table indexed by
+the flags (the translator expands a read-only package-level table into a conditional chain over the index, after
+showing that the index is in range): such a tie falls back to evaluating the function for every combination of the
+flags; a field that is compared with constants (the PTS/DTS indicator) is split into the values that matter and the
+rest (`ge4_*`), so that every test on it, however it is written, can be evaluated.
 -/
 import Astits.Generated.Lengths
 import Astits.Model.Mux
@@ -364,9 +368,15 @@ namespace C04
 theorem generated_calcPacketAdaptationFieldExtensionLength :
     Lengths.calcPacketAdaptationFieldExtensionLength = calcAFExtLength := by
   funext e
-  simp only [Lengths.calcPacketAdaptationFieldExtensionLength, calcAFExtLength, afExtSize, ptsOrDTSByteLength,
-    ite_add_u8, mod_lt_256]
-  omega
+  -- a function of the three flags: either the accumulation is normalised and compared arithmetically, or (a lookup
+  -- table indexed by the flags, bit operations on the index, …) the eight cases are evaluated
+  first
+    | (simp only [Lengths.calcPacketAdaptationFieldExtensionLength, calcAFExtLength, afExtSize, ptsOrDTSByteLength,
+        ite_add_u8, mod_lt_256]
+       omega)
+    | (cases h1 : e.hasLegalTimeWindow <;> cases h2 : e.hasPiecewiseRate <;> cases h3 : e.hasSeamlessSplice <;>
+        simp [Lengths.calcPacketAdaptationFieldExtensionLength, calcAFExtLength, afExtSize, ptsOrDTSByteLength,
+          h1, h2, h3])
 
 /-- a nil `AdaptationExtensionField` is the zero value on both sides (Go panics) -/
 theorem default_ext : (default : PacketAdaptationExtensionField) = defaultExt := rfl
@@ -391,18 +401,41 @@ end C04
 /-! ## C12 — PES optional header lengths (data_pes.go) -/
 namespace C12
 
+/-! comparisons of a number that is at least 4 with a literal, in the forms a guard can take (`simp` evaluates the
+side condition on the literal and finds `4 ≤ n` among its hypotheses) -/
+theorem ge4_eq {n k : Nat} (h : 4 ≤ n) (hk : k < 4) : (n = k) = False := by simp; omega
+theorem ge4_eq' {n k : Nat} (h : 4 ≤ n) (hk : k < 4) : (k = n) = False := by simp; omega
+theorem ge4_lt {n k : Nat} (h : 4 ≤ n) (hk : k ≤ 4) : (n < k) = False := by simp; omega
+theorem ge4_le {n k : Nat} (h : 4 ≤ n) (hk : k < 4) : (n ≤ k) = False := by simp; omega
+theorem ge4_gt {n k : Nat} (h : 4 ≤ n) (hk : k < 4) : (k < n) = True := by simp; omega
+theorem ge4_ge {n k : Nat} (h : 4 ≤ n) (hk : k ≤ 4) : (k ≤ n) = True := by simp; omega
+theorem ge4_eq_int {n : Nat} {k : Int} (h : 4 ≤ n) (hk : k < 4) : ((n : Int) = k) = False := by simp; omega
+theorem ge4_eq_int' {n : Nat} {k : Int} (h : 4 ≤ n) (hk : k < 4) : (k = (n : Int)) = False := by simp; omega
+theorem ge4_lt_int {n : Nat} {k : Int} (h : 4 ≤ n) (hk : k ≤ 4) : ((n : Int) < k) = False := by simp; omega
+theorem ge4_le_int {n : Nat} {k : Int} (h : 4 ≤ n) (hk : k < 4) : ((n : Int) ≤ k) = False := by simp; omega
+theorem ge4_gt_int {n : Nat} {k : Int} (h : 4 ≤ n) (hk : k < 4) : (k < (n : Int)) = True := by simp; omega
+theorem ge4_ge_int {n : Nat} {k : Int} (h : 4 ≤ n) (hk : k ≤ 4) : (k ≤ (n : Int)) = True := by simp; omega
+
 theorem generated_calcPESOptionalHeaderDataLength :
     Lengths.calcPESOptionalHeaderDataLength = calcPESOptionalHeaderDataLength := by
   funext h
   unfold Lengths.calcPESOptionalHeaderDataLength calcPESOptionalHeaderDataLength
-  -- `HasExtension` guards a nested block, the PTS/DTS indicator an if / else-if, and the Extension2Data term
-  -- is truncated separately: split on these; the other eight flags stay symbolic (shared `if` atoms)
-  by_cases hE : h.hasExtension = true <;> by_cases h2 : h.ptsDTSIndicator = 2 <;>
-    by_cases h3 : h.ptsDTSIndicator = 3 <;> by_cases hX : h.hasExtension2 = true
+  -- `HasExtension` guards a nested block and the Extension2Data term is truncated separately: split on these.  The
+  -- PTS/DTS indicator is compared with constants (an if / else-if, a switch, a bounds-checked lookup table, …): split
+  -- into the four values that matter and the rest, so that every test on it can be evaluated.  The other eight flags
+  -- stay symbolic (shared `if` atoms)
+  have hi : h.ptsDTSIndicator = 0 ∨ h.ptsDTSIndicator = 1 ∨ h.ptsDTSIndicator = 2 ∨ h.ptsDTSIndicator = 3 ∨
+      4 ≤ h.ptsDTSIndicator := by omega
+  by_cases hE : h.hasExtension = true <;> by_cases hX : h.hasExtension2 = true <;>
+    rcases hi with hi | hi | hi | hi | hi
   all_goals
-    simp only [hE, h2, h3, hX, if_true, if_false, Bool.false_eq_true, reduceIte, Nat.reduceEqDiff, ite_add_u8,
+    simp only [hi, hE, hX, if_true, if_false, Bool.false_eq_true, reduceIte, Nat.reduceEqDiff, ite_add_u8,
       ite_add_int, mod_lt_256, zero_lt_256, ite_lt_256, Nat.reduceLT, toNat_cast_mod_256, Bool.not_eq_true,
-      not_true_eq_false, not_false_eq_true]
+      not_true_eq_false, not_false_eq_true, Int.cast_ofNat_Int, Int.reduceLT, Int.reduceLE, Int.reduceEq,
+      Nat.reduceLeDiff, Nat.lt_irrefl, Nat.le_refl, and_true, true_and, and_false, false_and, or_true, true_or,
+      or_false, false_or, not_or, not_and,
+      ge4_eq, ge4_eq', ge4_lt, ge4_le, ge4_gt, ge4_ge, ge4_eq_int, ge4_eq_int', ge4_lt_int, ge4_le_int, ge4_gt_int,
+      ge4_ge_int]
     try simp only [Nat.mod_add_mod, Nat.add_mod_mod, Nat.mod_mod]
     len_arith_core
 
